@@ -99,14 +99,14 @@ func propC10(c *ctx) error {
 		// the same rejected text as a COMPLETE ${ } block of a directive value: rejected at load — on the first load and on
 		// every later one (a fresh manager each time: nothing learnt from an earlier, failed compilation may be reused)
 		if !strings.ContainsAny(full, "{}'\"<>&") && (i%4 == 0 || !c.quick()) {
-			k := []string{"text", "raw", "if", "title", "with", "range", "insert", "elif"}[r.n(8)]
+			k := []string{"text", "raw", "if", "title", "with", "range", "insert", "elif", "else", "else", "remove", "define"}[r.n(12)]
 			val := "${" + full + "}"
 			if k == "with" {
 				val = "w := " + val
 			}
 			tsrc := "<p :" + k + "='" + val + "'>x</p>"
-			if k == "elif" {
-				tsrc = "<p :if='${true}'>y</p>" + tsrc
+			if k == "elif" || k == "else" {
+				tsrc = "<p :if='${true}'>y</p>" + tsrc // (an else written WITH a value is a directive value like any other)
 			}
 			for round := 1; round <= 3; round++ {
 				rc := &renderCase{Files: [][2]string{{"t", tsrc}}, Tpl: "t"}
